@@ -503,7 +503,7 @@ impl fmt::Display for Term {
     }
 }
 
-fn base26_encode(mut n: u32) -> String {
+fn base26_encode(mut n: usize) -> String {
     let mut buf = Vec::<u8>::new();
     n += 1;
     while n > 0 {
@@ -526,11 +526,12 @@ fn show_precedence_cla(
     match term {
         Var(0) => "undefined".to_owned(),
         Var(i) => {
-            let i = *i as u32;
+            // computed in usize so that large indices are not truncated
+            let (i, depth) = (*i, depth as usize);
             let ix = if i <= depth {
                 depth - i
             } else {
-                max_depth + i - depth - 1
+                max_depth as usize + i - depth - 1
             };
             base26_encode(ix)
         }
@@ -539,7 +540,7 @@ fn show_precedence_cla(
                 format!(
                     "{}{}.{}",
                     LAMBDA,
-                    base26_encode(depth),
+                    base26_encode(depth as usize),
                     show_precedence_cla(t, 0, max_depth, depth + 1)
                 )
             };
